@@ -219,6 +219,44 @@ def _unescape(s):
     return re.sub(r"\\u\{([0-9a-fA-F]+)\}", lambda m: chr(int(m.group(1), 16)), s)
 
 
+def l4_run(carve):
+    """the delimiter of str.join reaches the SQL text as a correctly quoted string literal on every dialect, with and without
+    arrange= (the statement cannot be executed on the installed SQLite, which has no string_agg: the rendered text is checked)"""
+    import warnings
+
+    from .. import fakedrivers
+    from .c13 import _enum_outcome
+
+    import sqlalchemy as sa
+
+    pdt = H.pdt
+    n, bad = 0, []
+    with warnings.catch_warnings():
+        warnings.simplefilter("ignore")
+        for dname, eng in fakedrivers.engines().items():
+            md = sa.MetaData()
+            tb = sa.Table("t", md, sa.Column("s", sa.String()), sa.Column("h", sa.BigInteger()), sa.Column("g", sa.BigInteger()))
+            t = pdt.Table(tb, pdt.SqlAlchemy(eng))
+            for lit in (", ", ":x", "%", "a'b", "%(a)s", "?", "--"):
+                for ordered in (False, True):
+                    if "strjoin_ordered_sqlite" in carve and dname == "sqlite" and ordered and lit in (":x", "%"):
+                        continue
+                    if "pyformat_literal" in carve and lit == "%(a)s" and dname in ("sqlite", "mssql"):
+                        continue
+                    n += 1
+                    try:
+                        q = t >> pdt.group_by(t.g) >> pdt.summarize(j=t.s.str.join(lit, **({"arrange": t.h} if ordered else {}))) >> pdt.build_query()
+                    except (pdt.errors.NotSupportedError, pdt.errors.SubqueryError):
+                        continue
+                    except Exception as e:  # noqa: BLE001
+                        bad.append(f"{dname}: str.join({lit!r}{', arrange=h' if ordered else ''}): {type(e).__name__}: {str(e)[:100]}")
+                        continue
+                    quoted = "'" + lit.replace("'", "''") + "'"
+                    if quoted not in q and quoted.replace("%", "%%") not in q.replace("N'", "'") or (dname != "postgres" and "%" in lit and quoted not in q.replace("N'", "'")):
+                        bad.append(f"{dname}: str.join({lit!r}{', arrange=h' if ordered else ''}): the statement does not contain the literal {quoted}: {q[:160]!r}")
+    return _enum_outcome("the delimiter of str.join is rendered as the quoted literal on every dialect", n, bad)
+
+
 def l3_run(carve):
     """expressions whose VALUES are Python literals (case / map branches, coalesce defaults) used as grouping keys, sort keys,
     join keys and filter operands: the literals are data on both backends (native, Python oracle)"""
@@ -326,6 +364,8 @@ def obligations(tier):
                 )
                 obs.append(Obligation(f"C18/LIB/{kind}/{backend}/{lit!r}", "LIB", f"{kind} with the literal {lit!r} on {backend}: the specification agrees with the real engine on sampled values", make_lib(kind, lit, lit2, backend), functions=fns,
                                       bounded="10 sampled column values per literal (null, the literal itself, embedded, doubled, reversed, unrelated); native execution", carveouts={"regex_meta_pattern": "pattern contains regex metacharacters", "whole": "whole obligation"}))
+    obs.append(Obligation("C18/L4/str_join_delimiter", "L4", "the delimiter of str.join is a correctly quoted literal in the SQL text of every dialect, with and without arrange=", l4_run, functions=[H.fn_info(H.sqlite_backend.SqliteImpl.compile_ordered_aggregation)],
+                          bounded="7 delimiters x ordered / unordered x 3 dialects (rendered text)", carveouts={"strjoin_ordered_sqlite": "':x' / '%' as delimiter of an ordered str.join on SQLite", "pyformat_literal": "'%(a)s' on the dialects with positional parameters"}))
     obs.append(Obligation("C18/L3/literal_valued_keys", "L3", "case / map / coalesce expressions with literal values used as keys (native, Python oracle)", l3_run,
                           functions=[H.fn_info(H.col_expr_mod.CaseExpr.dtype), H.fn_info(H.sql_backend.SqlImpl.compile_ast), H.fn_info(H.sql_backend.SqlImpl.compile_lit)], bounded="6 key uses x 2 backends on one 7-row column with metacharacter literals"))
     return obs
